@@ -193,6 +193,12 @@ def b64(b):
 
 # ---------------------------------------------------------------- running
 
+def _limit_mem():
+    import resource
+    resource.setrlimit(resource.RLIMIT_AS, (6 << 30, 6 << 30))
+    resource.setrlimit(resource.RLIMIT_STACK, (resource.RLIM_INFINITY, resource.RLIM_INFINITY))
+
+
 class Env:
     def __init__(self):
         self.bindir = build_tools()
@@ -236,7 +242,7 @@ class Env:
                 out[d['id']] = d
         return out
 
-    def run_model(self, lines, fuel=200000, seed=0, need_oracle=True, shards=None):
+    def run_model(self, lines, fuel=200000, seed=0, need_oracle=True, shards=None, case_timeout=10):
         """lines: list of tab-separated case lines (without newline).  Returns {id: [fields...]}"""
         shards = shards or int(JOBS)
         n = len(lines)
@@ -246,10 +252,11 @@ class Env:
         procs = []
         for k in range(shards):
             part = lines[k::shards]
-            cmd = [self.model, '--fuel', str(fuel), '--seed', str(seed)]
+            cmd = [self.model, '--fuel', str(fuel), '--seed', str(seed), '--case-timeout', str(case_timeout)]
             if need_oracle:
                 cmd += ['--goref', self.goref]
-            p = subprocess.Popen(cmd, stdin=subprocess.PIPE, stdout=subprocess.PIPE, stderr=subprocess.PIPE)
+            p = subprocess.Popen(cmd, stdin=subprocess.PIPE, stdout=subprocess.PIPE, stderr=subprocess.PIPE,
+                                 preexec_fn=_limit_mem)
             procs.append((p, ('\n'.join(part) + '\n').encode()))
         out = {}
         import threading
@@ -497,7 +504,7 @@ def compare_run(model_fields, res, first_runtime_only=True):
     Returns None if they agree on the projected observables, else a reason string."""
     mstatus, mevents, mitems = (model_fields + ['', '', ''])[:3]
     if mstatus.startswith('noresult'):
-        if mstatus == 'noresult:fuel' and res['timeout']:
+        if mstatus in ('noresult:fuel', 'noresult:timeout', 'noresult:memory', 'noresult:stack') and res['timeout']:
             return None
         return 'model has no result (%s); implementation status %s' % (mstatus, res['status'])
     if res['timeout']:
